@@ -380,34 +380,37 @@ namespace nmtools::index
                 continue;
             }
             else {
-                auto index_ptr = get_index_array(slice);
-                auto tuple_ptr = get_tuple(slice);
-                using index_t = meta::remove_cvref_t<decltype(*index_ptr)>;
-                using tuple_t = meta::remove_cvref_t<decltype(*tuple_ptr)>;
-                if (index_ptr) {
-                    // avoid compile-time instantiation on ellipsis, int or other type
-                    // should not be encountered at runtime,
-                    // ellipsis or int at runtime should be handled by first top-level if branch
-                    if constexpr (meta::is_index_array_v<index_t>) {
-                        const auto& slice_ = *index_ptr;
-                        auto shape_i = at(shape,shp_i);
-                        at(res,res_i) = apply_range_slice(slice_,shape_i);
-                        res_i++;
-                        shp_i++;
-                    }
-                } else if (tuple_ptr) {
-                    // avoid compile-time instantiation on ellipsis, int or other type
-                    // should not be encountered at runtime,
-                    // ellipsis or int at runtime should be handled by first top-level if branch
-                    if constexpr (meta::is_tuple_v<tuple_t>) {
-                        const auto& slice_ = *tuple_ptr;
-                        auto shape_i = at(shape,shp_i);
-                        at(res,res_i) = apply_range_slice(slice_,shape_i);
-                        res_i++;
-                        shp_i++;
-                    }
+                // NOTE: the range may be held by ANY index-array / tuple alternative of the (possibly nested) either,
+                // get_index_array / get_tuple only find the first one, so visit all alternatives (like dynamic_slice does)
+                [[maybe_unused]] auto handle_range = [&](const auto& slice_){
+                    auto shape_i = at(shape,shp_i);
+                    at(res,res_i) = apply_range_slice(slice_,shape_i);
+                    res_i++;
+                    shp_i++;
+                };
+                using m_slice_t = meta::remove_cvref_t<decltype(slice)>;
+                if constexpr (meta::is_either_v<m_slice_t>) {
+                    const auto slice_ptrs = flatten_either(slice);
+                    constexpr auto N = meta::len_v<decltype(slice_ptrs)>;
+                    meta::template_for<N>([&](auto index){
+                        constexpr auto I = decltype(index)::value;
+                        const auto slice_ptr = nmtools::get<I>(slice_ptrs);
+                        using alt_t = meta::remove_cvref_t<decltype(*slice_ptr)>;
+                        // ellipsis or int are handled by the branches above
+                        if constexpr (meta::is_index_array_v<alt_t> || meta::is_tuple_v<alt_t>) {
+                            if (slice_ptr) {
+                                handle_range(*slice_ptr);
+                            }
+                        }
+                    });
+                } else if constexpr (meta::is_index_array_v<m_slice_t> || meta::is_tuple_v<m_slice_t>) {
+                    handle_range(slice);
                 }
             } // else (index array & tuple handler)
+        }
+        // fewer slices than axes (e.g. a[i] on a 2-dim array): the remaining axes are kept whole
+        for (; shp_i < (size_t)dim && res_i < (size_t)len(res); ) {
+            at(res,res_i++) = at(shape,shp_i++);
         }
 
         return res;
@@ -585,6 +588,10 @@ namespace nmtools::index
             } else {
                 handle_index_array(slice);
             }
+        }
+        // fewer slices than axes: the remaining axes are kept whole
+        for (; shape_i < (size_t)dim; shape_i++) {
+            at(res,result_i++) = at(indices,index_i++);
         }
 
         return res;
@@ -860,6 +867,10 @@ namespace nmtools::index
             // to be incremented.
             s_i++;
         });
+        // fewer slices than axes (e.g. a[i] on a 2-dim array): the remaining axes are kept whole
+        for (; s_i < (size_t)len(shape) && r_i < (size_t)len(res); s_i++) {
+            at(res,r_i++) = at(shape,s_i);
+        }
 
         return res;
     } // shape_slice
@@ -983,6 +994,10 @@ namespace nmtools::index
             r_i++;
             s_i++;
         });
+        // fewer slices than axes: the remaining axes are kept whole
+        for (; s_i < (size_t)dim; s_i++) {
+            at(res,r_i++) = at(indices,i_i++);
+        }
 
         return res;
     } // slice
